@@ -341,6 +341,7 @@ func (ar *c40ActorRun) execFakePub(w *c40World, s c40Step) string {
 				w.writeMu.RUnlock()
 				return "err:server is shutting down"
 			}
+			_ = ar.curPub.Path.SafeConf()
 			ar.curPub.Write("x")
 			w.writeMu.RUnlock()
 		}
@@ -357,10 +358,7 @@ func (ar *c40ActorRun) execFakePub(w *c40World, s c40Step) string {
 		if ar.curPub == nil {
 			return "err:no publisher"
 		}
-		if ar.curPub.Path.SafeConf() == nil {
-			return "err:nil conf"
-		}
-		return "ok"
+		return c40PollConf(ar.curPub.Path)
 	case "pmlist":
 		// what the API and the metrics exporter do, without HTTP in between
 		_, err := w.pm.Load().APIPathsList()
@@ -391,10 +389,7 @@ func (ar *c40ActorRun) execFakeRdr(w *c40World, s c40Step) string {
 	case "safeconf":
 		for i := len(ar.rdrs) - 1; i >= 0; i-- {
 			if !ar.rdrs[i].detached {
-				if ar.rdrs[i].r.Path.SafeConf() == nil {
-					return "err:nil conf"
-				}
-				return "ok"
+				return c40PollConf(ar.rdrs[i].r.Path)
 			}
 		}
 		return "err:no reader"
@@ -409,6 +404,19 @@ func (ar *c40ActorRun) execFakeRdr(w *c40World, s c40Step) string {
 		return c40ErrOutcome(err)
 	}
 	return "err:unknown op"
+}
+
+// c40PollConf reads the path configuration repeatedly for a short while, yielding in between: what a session does
+// over its lifetime (runOnRead/runOnReady hooks, record settings, limits), compressed so that a hot reload delivered
+// in the meantime really is concurrent with a read.
+func c40PollConf(p defs.Path) string {
+	for i := 0; i < 40; i++ {
+		if p.SafeConf() == nil {
+			return "err:nil conf"
+		}
+		runtime.Gosched()
+	}
+	return "ok"
 }
 
 // ---------------------------------------------------------------- real RTSP clients
